@@ -1079,3 +1079,199 @@ Proof.
     apply in_seq in Hn.
     apply (progress_open g c s HT HI HB HW Hr EI n); [lia|exact Hnf].
 Qed.
+
+(* ------------------------------------------------------------------ C04: the measure *)
+
+Lemma sum_le (f h : nat -> nat) l : (forall n, In n l -> f n <= h n) ->
+  fold_right (fun n acc => f n + acc) 0 l <= fold_right (fun n acc => h n + acc) 0 l.
+Proof.
+  induction l as [|a l IH]; simpl; intro H; [lia|].
+  assert (Ha : f a <= h a) by (apply H; left; reflexivity).
+  assert (Hl : forall n, In n l -> f n <= h n) by (intros n Hn; apply H; right; exact Hn).
+  specialize (IH Hl). lia.
+Qed.
+
+Lemma sum_lt (f h : nat -> nat) l x : (forall n, In n l -> f n <= h n) -> In x l -> f x < h x ->
+  fold_right (fun n acc => f n + acc) 0 l < fold_right (fun n acc => h n + acc) 0 l.
+Proof.
+  induction l as [|a l IH]; simpl; intros H Hx Hlt; [destruct Hx|].
+  assert (Ha : f a <= h a) by (apply H; left; reflexivity).
+  assert (Hl : forall n, In n l -> f n <= h n) by (intros n Hn; apply H; right; exact Hn).
+  destruct Hx as [Hx|Hx].
+  - subst a. pose proof (sum_le f h l Hl). lia.
+  - specialize (IH Hl Hx Hlt). lia.
+Qed.
+
+Lemma sum_bound (f : nat -> nat) k l : (forall n, f n <= k) ->
+  fold_right (fun n acc => f n + acc) 0 l <= k * length l.
+Proof.
+  intro H. induction l as [|a l IH]; simpl; [lia|]. specialize (H a). lia.
+Qed.
+
+Lemma legal_phi b x y : legal b x y -> phi y < phi x.
+Proof. destruct x, y; simpl; intro H; try lia; contradiction. Qed.
+
+Lemma node_mu_mono g c s e s' : step g c s e = Some s' -> forall m, node_mu s' m <= node_mu s m.
+Proof.
+  intros HS m. unfold node_mu.
+  destruct (step_flags _ _ _ _ _ HS) as [_ [_ [_ [HC _]]]]. specialize (HC m).
+  assert (H1 : phi (st s' m) <= phi (st s m)).
+  { destruct (step_status_cases _ _ _ _ _ HS m) as [E|L].
+    - rewrite E. lia.
+    - apply legal_phi in L. lia. }
+  destruct (cmd s m); [rewrite HC by reflexivity; lia|]. destruct (cmd s' m); lia.
+Qed.
+
+Lemma glob_mu_mono g c s e s' : step g c s e = Some s' -> glob_mu c s' <= glob_mu c s.
+Proof.
+  intros HS. unfold glob_mu.
+  destruct (step_flags _ _ _ _ _ HS) as [_ [H1 [H2 [_ H3]]]].
+  assert (A : (if ctxc s' then 0 else 1) <= (if ctxc s then 0 else 1)).
+  { destruct (ctxc s); [rewrite H1 by reflexivity; lia|]. destruct (ctxc s'); lia. }
+  assert (B : (if ret s' then 0 else 1) <= (if ret s then 0 else 1)).
+  { destruct (ret s); [rewrite H2 by reflexivity; lia|]. destruct (ret s'); lia. }
+  lia.
+Qed.
+
+Lemma step_strict g c s e s' : step g c s e = Some s' ->
+  (exists n, n < size g /\ node_mu s' n < node_mu s n) \/ glob_mu c s' < glob_mu c s.
+Proof.
+  intros HS. destruct e as [n|n|n|n|n|n|n|n| | |].
+  - apply step_Start in HS. destruct HS as [Hn [Hst E]]. subst s'. left. exists n.
+    split; [exact Hn|]. unfold node_mu. proj. rewrite upd_same, Hst. simpl. lia.
+  - apply step_CancelRecv in HS. destruct HS as [Hn [Hst [_ E]]]. subst s'. left. exists n.
+    split; [exact Hn|]. unfold node_mu. proj. rewrite upd_same.
+    destruct Hst as [Hst|Hst]; rewrite Hst; simpl; lia.
+  - apply step_Pick in HS. destruct HS as [Hn [Hst [_ E]]]. subst s'. left. exists n.
+    split; [exact Hn|]. unfold node_mu. proj. rewrite upd_same, Hst. simpl. lia.
+  - apply step_CmdStart in HS. destruct HS as [Hn [_ [Hc [_ E]]]]. subst s'. left. exists n.
+    split; [exact Hn|]. unfold node_mu. proj. rewrite upd_same, Hc. lia.
+  - apply step_Reject in HS. destruct HS as [Hn [Hst [_ E]]]. subst s'. left. exists n.
+    split; [exact Hn|]. unfold node_mu.
+    destruct (complete_fail_spec g c s n) as [E1 [E2 _]]. rewrite E1, E2, upd_same, Hst. simpl. lia.
+  - apply step_FinishOk in HS. destruct HS as [Hn [Hst E]]. subst s'. left. exists n.
+    split; [exact Hn|]. unfold node_mu. rewrite complete_ok_n, Hst.
+    change (cmd (complete_ok g s n)) with (cmd s). simpl. lia.
+  - apply step_FinishFail in HS. destruct HS as [Hn [Hst E]]. subst s'. left. exists n.
+    split; [exact Hn|]. unfold node_mu.
+    destruct (complete_fail_spec g c s n) as [E1 [E2 _]]. rewrite E1, E2, upd_same, Hst. simpl. lia.
+  - apply step_FinishCancelled in HS. destruct HS as [Hn [Hst [_ E]]]. subst s'. left. exists n.
+    split; [exact Hn|]. unfold node_mu. proj. rewrite upd_same, Hst. simpl. lia.
+  - apply step_CtxCancel in HS. destruct HS as [Hc E]. subst s'. right.
+    unfold glob_mu. proj. rewrite Hc. lia.
+  - apply step_WorkerExit in HS. destruct HS as [_ [HL E]]. subst s'. right.
+    unfold glob_mu. proj. lia.
+  - apply step_WalkReturn in HS. destruct HS as [Hr [_ E]]. subst s'. right.
+    unfold glob_mu. proj. rewrite Hr. lia.
+Qed.
+
+Lemma measure : forall g c s e s', step g c s e = Some s' -> mu g c s' < mu g c s.
+Proof.
+  intros g c s e s' HS. unfold mu.
+  pose proof (node_mu_mono _ _ _ _ _ HS) as HN.
+  pose proof (glob_mu_mono _ _ _ _ _ HS) as HG.
+  destruct (step_strict _ _ _ _ _ HS) as [[n [Hn Hlt]]|Hlt].
+  - assert (L : fold_right (fun n acc => node_mu s' n + acc) 0 (seq 0 (size g)) <
+                fold_right (fun n acc => node_mu s n + acc) 0 (seq 0 (size g))).
+    { apply sum_lt with n; [intros m _; apply HN|apply in_seq; lia|exact Hlt]. }
+    lia.
+  - assert (L : fold_right (fun n acc => node_mu s' n + acc) 0 (seq 0 (size g)) <=
+                fold_right (fun n acc => node_mu s n + acc) 0 (seq 0 (size g))).
+    { apply sum_le. intros m _. apply HN. }
+    lia.
+Qed.
+
+Lemma run_from_length g c evs : forall s s', run_from g c s evs = Some s' ->
+  length evs + mu g c s' <= mu g c s.
+Proof.
+  induction evs as [|e r IH]; intros s s' HR; simpl in HR |- *.
+  - inversion HR. lia.
+  - destruct (step g c s e) as [s1|] eqn:E; [|discriminate HR].
+    apply measure in E. specialize (IH s1 s' HR). lia.
+Qed.
+
+Lemma mu_init g c : mu g c (init g) <= 5 * size g + W c + 2.
+Proof.
+  unfold mu.
+  assert (A : fold_right (fun n acc => node_mu (init g) n + acc) 0 (seq 0 (size g)) <= 5 * size g).
+  { pose proof (sum_bound (node_mu (init g)) 5 (seq 0 (size g))) as H.
+    rewrite seq_length in H. apply H. intro n. unfold node_mu, init. cbn [st cmd].
+    destruct (deps g n); simpl; lia. }
+  assert (B : glob_mu c (init g) = W c + 2).
+  { unfold glob_mu, init. cbn [ctxc dead ret]. lia. }
+  lia.
+Qed.
+
+Lemma bounded : forall g c evs s, run g c evs = Some s -> length evs <= 5 * size g + W c + 2.
+Proof.
+  intros g c evs s HR. apply run_from_length in HR. pose proof (mu_init g c). lia.
+Qed.
+
+(* ------------------------------------------------------------------ C04: terminal states *)
+
+Lemma terminal_spec g c s : terminal g c s <->
+  ret s = true /\ forall n, n < size g -> settledb c s n = true.
+Proof.
+  unfold terminal, terminalb. rewrite andb_true_iff, forallb_forall. split.
+  - intros [H1 H2]. split; [exact H1|]. intros n Hn. apply H2. apply in_seq. lia.
+  - intros [H1 H2]. split; [exact H1|]. intros n Hn. apply in_seq in Hn. apply H2. lia.
+Qed.
+
+Lemma settled_cases c s n : settledb c s n = true ->
+  st s n = Ok \/ st s n = Failed \/ st s n = Skipped \/ st s n = Aborted \/
+  (st s n = Queued /\ closed s = true /\ dead s = W c).
+Proof.
+  unfold settledb. intro H. apply orb_true_iff in H. destruct H as [H|H].
+  - destruct (st s n); simpl in H; try discriminate H; auto.
+  - apply andb_true_iff in H. destruct H as [H H3]. apply andb_true_iff in H. destruct H as [H1 H2].
+    apply status_eqb_eq in H1. apply Nat.eqb_eq in H3. right. right. right. right. auto.
+Qed.
+
+Lemma all_resolved : forall g c s, topo g -> wf_graph g -> W c >= 1 ->
+  reachable g c s -> terminal g c s ->
+  forall n, n < size g ->
+  (st s n = Ok \/ st s n = Failed \/ st s n = Skipped \/ st s n = Aborted \/
+   (st s n = Queued /\ closed s = true /\ dead s = W c)) /\
+  (st s n = Aborted \/ st s n = Queued -> fft s = true \/ ctxc s = true) /\
+  (st s n = Skipped ->
+   (exists a, st s a = Failed /\ reach g a n) \/ fft s = true \/ ctxc s = true).
+Proof.
+  intros g c s HT _ _ Hreach Hterm n Hn.
+  pose proof (reachable_inv g c s HT Hreach) as HI.
+  apply terminal_spec in Hterm. destruct Hterm as [Hr Hall].
+  split; [apply settled_cases; apply Hall; exact Hn|]. split.
+  - intros [H|H].
+    + eapply I_abort; eassumption.
+    + destruct (I_ret _ _ _ HI Hr) as [F|[F _]]; [|exact F].
+      specialize (F n Hn). rewrite H in F. discriminate F.
+  - intro H. apply (I_cp _ _ _ HI). apply (I_skip _ _ _ HI). exact H.
+Qed.
+
+Lemma no_cancel_all_done : forall g c s, topo g -> wf_graph g -> W c >= 1 ->
+  reachable g c s -> terminal g c s -> fft s = false -> ctxc s = false ->
+  forall n, n < size g ->
+  st s n = Ok \/ st s n = Failed \/
+  (st s n = Skipped /\ exists a, st s a = Failed /\ reach g a n).
+Proof.
+  intros g c s HT HW1 HW Hreach Hterm EF EC n Hn.
+  destruct (all_resolved g c s HT HW1 HW Hreach Hterm n Hn) as [H1 [H2 H3]].
+  destruct H1 as [H|[H|[H|[H|[H _]]]]]; auto.
+  - right. right. split; [exact H|]. destruct (H3 H) as [A|[A|A]]; [exact A|congruence|congruence].
+  - destruct H2 as [A|A]; [auto|congruence|congruence].
+  - destruct H2 as [A|A]; [auto|congruence|congruence].
+Qed.
+
+(* the completions map is written after Walk handed it to its caller only on the cancellation
+   paths (fail-fast or outer cancellation) *)
+Lemma no_race_partial : forall g c s, topo g -> wf_graph g -> reachable g c s ->
+  race s = true -> ret s = true /\ (fft s = true \/ ctxc s = true).
+Proof.
+  intros g c s HT _ Hreach H. apply (I_race _ _ _ (reachable_inv g c s HT Hreach)). exact H.
+Qed.
+
+Lemma no_race_refuted : exists g c evs s, run g c evs = Some s /\ race s = true.
+Proof.
+  exists (antichain 2), (mkConfig 2 true),
+    [Start 0; Start 1; Pick 0; Pick 1; FinishFail 0; WalkReturn; FinishOk 1].
+  eexists. split; vm_compute; reflexivity.
+Qed.
